@@ -30,6 +30,10 @@ impl<'a> Paseto<'a, V2, Local> {
         //get footer
 
         let decoded_payload = Self::parse_raw_token(token, footer, &V2::default(), &Local::default())?;
+        //a payload shorter than the nonce cannot be a token
+        if decoded_payload.len() < 24 {
+            return Err(PasetoError::IncorrectSize);
+        }
         let (nonce, ciphertext) = decoded_payload.split_at(24);
 
         //pack preauth
